@@ -98,6 +98,7 @@ Proof.
     try (match goal with |- context [on_send_fail ?a ?b ?c ?d ?e] => pose proof (on_send_fail_spec a b c d e) as X; destruct (on_send_fail a b c d e) end);
     try (match goal with |- context [with_backoff ?a ?b ?c ?d] => pose proof (with_backoff_spec a b c d) as X; destruct (with_backoff a b c d) end);
     try (match goal with |- context [on_busy ?a ?b ?c ?d] => pose proof (on_busy_spec a b c d) as X; destruct (on_busy a b c d) end);
+    try (match goal with |- context [backoff_then_region_err ?a ?b ?c ?d] => pose proof (btr_spec a b c d) as X; destruct (backoff_then_region_err a b c d); [contradiction|] end);
     repeat match goal with |- context [if ?b then _ else _] => destruct b end;
     try (match goal with |- context [on_busy ?a ?b ?c ?d] => pose proof (on_busy_spec a b c d) as X; destruct (on_busy a b c d) end);
     try (destruct X as (_ & _ & ->)); try (destruct X as (_ & ->)); try (subst; cbn; lia); try (cbn; lia).
